@@ -26,12 +26,22 @@ all-integer structures) at even and odd offsets, followed by further fields and 
 element by element so that zero bytes sit on both sides of element boundaries without forming a zero element (also single
 non-zero-byte elements), 0-70 elements (around the 32/64 element marks), with, without and with a truncated terminator; the same
 inputs also feed the null-terminated structures of the directed product and of the definition sets.
+
+Count fields named like a special token (harness/v4_c07.py): `[m;] <count field>; [m;] ELEM a[<expression over it>]..; [tail;]` where the
+count field is called `EOF` (the idiom of the library's test_eof: the field binds the name, so a[EOF] holds exactly as many elements
+as the field says and is no to-end-of-stream array), `sizeof`, `NULL`, a type name, a definition keyword, an enum member / type
+name, the structure's own name (ordinary names as control); count field of 1/2/4 bytes, signed, enum or a bit-field; the bare name or
+an expression over it; a[c], a[c][k], a[k][c], a[c][c2], a[c][]; 26 element kinds incl. a structure with a count field of its own
+that is called the same and one whose own a[EOF] is unbound (to-end-of-stream); with and without a field behind the array.  A
+complete input is built per structure and configuration and CUT AT EVERY POSITION: where the input is too short for the announced
+number of elements the parse must raise EOFError (never deliver a shorter array), in both reader modes; complete inputs (also
+followed by further bytes) go through the same laws as everything else (reference parser, dumps, model).
 """
 from __future__ import annotations
 
 import itertools
 
-from .. import defs, impl, refimpl, s3_sets, t2_arrays
+from .. import defs, impl, refimpl, s3_sets, t2_arrays, v4_c07
 from ..common import Result, mkrng
 from ..structprops import Engine, load, real_parse, rand_bytes
 
@@ -83,10 +93,11 @@ def make_input(rnd, form, tree=None, cfg=None):
     return bytes([n0]) + body
 
 
-def check_case(eng, res, L, form, en, data, cfg, sigs, label=None):
+def check_case(eng, res, L, form, en, data, cfg, sigs, label=None, refparse=refimpl.parse):
     """all array-length laws on one (structure `n; a[..]; tail`, input): the parse agrees with the reference parser (number of
     elements, element boundaries, consumed bytes), dumps parses back (terminator re-appended), a fixed-size array with another
-    number of elements is refused, the model agrees.  `a` is the field number L.arr_index (default 1)."""
+    number of elements is refused, the model agrees.  `a` is the field number L.arr_index (default 1).  `refparse`: the reference
+    parser to use (v4_c07.ref_parse for inputs that may end before the position of an empty array)."""
     T, tree, compiled = L.T, L.tree, L.compiled
     try:
         with t2_arrays.time_limit(3.0):  # a to-end-of-stream loop that makes no progress is reported (error class Hang), not waited for
@@ -94,7 +105,7 @@ def check_case(eng, res, L, form, en, data, cfg, sigs, label=None):
     except t2_arrays.Hang:
         want, obj = ("err", "Hang"), None
     try:
-        rv, rend, _ = refimpl.parse(tree, data, 0, cfg)
+        rv, rend, _ = refparse(tree, data, 0, cfg)
         ref = ("ok", rv, rend)
     except refimpl.Short:
         ref = ("err", "EOFError")
@@ -251,6 +262,68 @@ def run_straddle(env, eng, res, rnd):
     eng.flush()
 
 
+def run_named(env, eng, res, rnd):
+    """count fields named like a special token (EOF, sizeof, type names, keywords ...), inputs cut at every position (v4_c07)"""
+    tier = env["tier"]
+    for _ in range(150 if tier == "quick" else 1200):
+        plan = v4_c07.named_plan(rnd)
+        tree, cn, en, form = plan["tree"], plan["cn"], plan["en"], plan["form"]
+        for endian, align, compiled in itertools.product("<>", (False, True), (False, True)):
+            if rnd.random() < (0.6 if tier == "quick" else 0.35):
+                continue
+            L, err = load(tree, endian=endian, align=align, compiled=compiled)
+            if L is None:
+                res.feat(f"named-rejected:{cn}")
+                eng.report(f"array definition with a count field called {cn} rejected: {type(err).__name__}: {err}",
+                           {"definition": defs.render_struct('T', tree), "endian": endian, "align": align, "compiled": compiled}, [])
+                continue
+            L.arr_index = plan["arr_index"]
+            cfg = refimpl.Cfg(endian, align, "uint64", impl.CONSTS)
+            # F30 concerns only the re-parse of a dump (check_case adds it there); the parse itself is never excused
+            sigs = [x for x in eng.sigs(L) if x != "F30"]
+            res.feat(f"named:{plan['kind']}")
+            res.feat(f"named-name:{cn}")
+            res.feat(f"named-elem:{en}")
+            res.feat(f"named-dims:{plan['dshape']}")
+            res.feat(f"named-fields:{plan['shape']}" + ("+tail" if plan["tail"] else ""))
+            for _i in range(1 if tier == "quick" else 2):
+                full = v4_c07.named_full(rnd, plan, cfg)
+                if full is None:
+                    res.feat("named-no-input-drawn")
+                    continue
+                for label, data in v4_c07.named_inputs(rnd, full, tier):
+                    try:
+                        v4_c07.ref_parse(tree, data, 0, cfg)
+                        short = False
+                    except refimpl.Short:
+                        short = True
+                    except refimpl.Bad:
+                        short = False
+                    if not short:
+                        check_case(eng, res, L, form, en, data, cfg, sigs, label=f"named-case:{plan['kind']}:{label}", refparse=v4_c07.ref_parse)
+                        continue
+                    # the input ends before the announced elements (or a field) do: EOFError, never a shorter array
+                    try:
+                        with t2_arrays.time_limit(3.0):
+                            want, _obj = real_parse(L.T, data)
+                    except t2_arrays.Hang:
+                        want = ("err", "Hang")
+                    except Exception as e:  # noqa: BLE001 - a value the harness cannot read back is no EOFError either
+                        want = ("err", f"{type(e).__name__} while reading the parsed value back")
+                    res.count((L.text, endian, align, compiled, data), True)
+                    res.feat(f"named-case:{plan['kind']}:short")
+                    if want != ("err", "EOFError"):
+                        cd = eng.case_data(L, data=data, complete_input=full, count_field=cn)
+                        got = f"succeeded with {str(want[1])[:200]} consuming {want[2]}" if want[0] == "ok" else f"raised {want[1]}"
+                        eng.report(f"the input ({len(data)} of the {len(full)} bytes of a complete one) is too short for the elements the count field "
+                                   f"{cn} announces: EOFError is due, the parse {got}", cd, sigs)
+                    if not compiled and form != "eof":
+                        eng.model_read(L, data, 0, want, "array read (short input)", sigs)
+        if len(eng.lines) > 4000:
+            eng.flush()
+    eng.flush()
+
+
 def run(env) -> Result:
     res = Result()
     res.rule = ("directed product: 21 element types (packed ints, odd-width ints, char, wchar, floats, enum/flag, LEB128, pointer, void, fixed "
@@ -262,6 +335,10 @@ def run(env) -> Result:
                 "Mixed-form dimensions: 1-3 count fields, 1-3 dimensions each fixed/expression/EOF/null-terminated, late constants named like "
                 "fields and constants that are no field, 15 element kinds. Partial-zero elements: null-terminated arrays of 16 multi-byte "
                 "element kinds over inputs whose zero bytes straddle element boundaries, 0-70 elements, further fields behind. "
+                "Count fields named like a special token: the count field of a[expr] is called EOF (40 %), sizeof, NULL, a type name, a keyword, "
+                "an enum member/type name, the structure's name (24 names) or plainly; 7 count-field types (1/2/4 bytes, signed, enum, alias) and bit-fields; 5 dimension "
+                "shapes; 26 element kinds; with/without a field behind; a complete input per structure and configuration, cut at every "
+                "position: a short input must raise EOFError, never give a shorter array; complete inputs under all the laws above. "
                 "distinct = (definition, config, input); non-trivial = the array has >= 1 element")
     eng = Engine(env, res, "C07")
     rnd = mkrng(env["seed"], "c07")
@@ -286,6 +363,7 @@ def run(env) -> Result:
     run_sets(env, eng, res, mkrng(env["seed"], "c07-sets"))
     run_mixed(env, eng, res, mkrng(env["seed"], "c07-mixed"))
     run_straddle(env, eng, res, mkrng(env["seed"], "c07-straddle"))
+    run_named(env, eng, res, mkrng(env["seed"], "c07-named"))
     return res
 
 
